@@ -512,6 +512,13 @@ type c23refs struct {
 	Cfg     map[string]string `json:"cfg"` // "<pos>|<tuple key>" -> dump
 }
 
+type c23batchOut struct {
+	Globals string            `json:"globals"`
+	Default string            `json:"default"`
+	Cfg     map[string]string `json:"cfg"`
+	Done    int               `json:"done"`
+}
+
 type c23finding struct {
 	sig    string
 	detail func() string
@@ -627,22 +634,54 @@ func c23init() []c23opt {
 func runC23() {
 	alpha := c23init()
 	// reference mode: one construction in a fresh process
-	if spec := os.Getenv("C23_REF"); spec != "" {
-		quiet()
-		var pos int
+	parseKey := func(spec string) (int, c23tuple) {
 		var t c23tuple
 		parts := strings.SplitN(spec, "|", 2)
-		pos, _ = strconv.Atoi(parts[0])
+		pos, _ := strconv.Atoi(parts[0])
 		if len(parts) > 1 && parts[1] != "" {
 			for _, s := range strings.Split(parts[1], ",") {
 				o, _ := strconv.Atoi(s)
 				t = append(t, o)
 			}
 		}
+		return pos, t
+	}
+	if spec := os.Getenv("C23_REF"); spec != "" {
+		quiet()
+		pos, t := parseKey(spec)
 		g := dumpGlobals()
 		c, err := c23build(alpha, t, pos)
-		out, _ := json.Marshal(map[string]string{"globals": g, "cfg": c23dumpOf(c, err)})
+		out, _ := json.Marshal(c23batchOut{Globals: g, Cfg: map[string]string{spec: c23dumpOf(c, err)}, Done: 1})
 		os.Stdout.Write(out)
+		return
+	}
+	// batched reference mode (two-option tuples): several constructions in one
+	// process, each from a state that is observably identical to a fresh process
+	// (exported defaults restored, default configuration and package defaults
+	// re-checked after every construction; the process stops at the first
+	// construction after which that state cannot be re-established).
+	if path := os.Getenv("C23_REF_BATCH"); path != "" {
+		quiet()
+		var keys []string
+		b, _ := os.ReadFile(path)
+		json.Unmarshal(b, &keys)
+		init := [2]uacp.Acknowledge{*uacp.DefaultClientACK, *uacp.DefaultServerACK}
+		out := c23batchOut{Globals: dumpGlobals(), Cfg: map[string]string{}}
+		c0, err0 := opcua.NewClient(c23endpoint)
+		out.Default = c23dumpOf(c0, err0)
+		for _, k := range keys {
+			pos, t := parseKey(k)
+			c, err := c23build(alpha, t, pos)
+			out.Cfg[k] = c23dumpOf(c, err)
+			out.Done++
+			*uacp.DefaultClientACK, *uacp.DefaultServerACK = init[0], init[1]
+			cd, errd := opcua.NewClient(c23endpoint)
+			if dumpGlobals() != out.Globals || c23dumpOf(cd, errd) != out.Default {
+				break
+			}
+		}
+		ob, _ := json.Marshal(out)
+		os.Stdout.Write(ob)
 		return
 	}
 
@@ -686,46 +725,67 @@ func runC23() {
 	refPath := os.Getenv("C23_REFS")
 	refs := &c23refs{Cfg: map[string]string{}}
 	if refPath == "" {
-		type job struct{ key string }
-		var jobs []string
+		// strict references (one fresh process each): the default client and every
+		// one-option tuple at every position; batched references: two-option tuples
+		var strict, batched []string
 		for pos := 0; pos < maxClients; pos++ {
 			for _, t := range tuples {
-				jobs = append(jobs, strconv.Itoa(pos)+"|"+t.key())
+				k := strconv.Itoa(pos) + "|" + t.key()
+				if len(t) <= 1 {
+					strict = append(strict, k)
+				} else {
+					batched = append(batched, k)
+				}
 			}
 		}
 		var mu sync.Mutex
 		var wg sync.WaitGroup
-		ch := make(chan string)
 		var firstErr error
+		var refProcs int
+		fail := func(e error) {
+			mu.Lock()
+			if firstErr == nil {
+				firstErr = e
+			}
+			mu.Unlock()
+		}
+		spawn := func(env string) (*c23batchOut, error) {
+			cmd := exec.Command(os.Args[0], "C23")
+			cmd.Env = append(os.Environ(), env, "GOMAXPROCS=1")
+			out, err := cmd.Output()
+			if err != nil {
+				return nil, err
+			}
+			var m c23batchOut
+			if err := json.Unmarshal(out, &m); err != nil {
+				return nil, err
+			}
+			mu.Lock()
+			refProcs++
+			if refs.Globals == "" {
+				refs.Globals = m.Globals
+			} else if refs.Globals != m.Globals && firstErr == nil {
+				firstErr = fmt.Errorf("fresh processes disagree on the package-level defaults")
+			}
+			for k, v := range m.Cfg {
+				refs.Cfg[k] = v
+			}
+			mu.Unlock()
+			return &m, nil
+		}
+		ch := make(chan string)
 		for w := 0; w < evid.Workers(); w++ {
 			wg.Add(1)
 			go func() {
 				defer wg.Done()
 				for k := range ch {
-					cmd := exec.Command(os.Args[0], "C23")
-					cmd.Env = append(os.Environ(), "C23_REF="+k, "GOMAXPROCS=1")
-					out, err := cmd.Output()
-					var m map[string]string
-					if err == nil {
-						err = json.Unmarshal(out, &m)
+					if _, err := spawn("C23_REF=" + k); err != nil {
+						fail(fmt.Errorf("reference %s: %v", k, err))
 					}
-					mu.Lock()
-					if err != nil && firstErr == nil {
-						firstErr = fmt.Errorf("reference %s: %v", k, err)
-					}
-					if err == nil {
-						refs.Cfg[k] = m["cfg"]
-						if refs.Globals == "" {
-							refs.Globals = m["globals"]
-						} else if refs.Globals != m["globals"] {
-							firstErr = fmt.Errorf("fresh processes disagree on the package-level defaults")
-						}
-					}
-					mu.Unlock()
 				}
 			}()
 		}
-		for _, k := range jobs {
+		for _, k := range strict {
 			ch <- k
 		}
 		close(ch)
@@ -733,6 +793,44 @@ func runC23() {
 		if firstErr != nil {
 			evid.EngineError("C23", "%v", firstErr)
 		}
+		// batched: split into Workers() chunks; a process that stops early is
+		// replaced by a new one for the rest of its chunk
+		nw := evid.Workers()
+		for w := 0; w < nw; w++ {
+			var chunk []string
+			for i := w; i < len(batched); i += nw {
+				chunk = append(chunk, batched[i])
+			}
+			wg.Add(1)
+			go func(chunk []string) {
+				defer wg.Done()
+				for len(chunk) > 0 {
+					f, err := os.CreateTemp(evid.Scratch(), "c23batch-*.json")
+					if err != nil {
+						fail(err)
+						return
+					}
+					json.NewEncoder(f).Encode(chunk)
+					f.Close()
+					m, err := spawn("C23_REF_BATCH=" + f.Name())
+					os.Remove(f.Name())
+					if err != nil || m.Done == 0 {
+						fail(fmt.Errorf("reference batch: %v", err))
+						return
+					}
+					if m.Default != refs.Cfg["0|"] {
+						fail(fmt.Errorf("default configuration at the start of a reference batch differs from the fresh-process default"))
+						return
+					}
+					chunk = chunk[m.Done:]
+				}
+			}(chunk)
+		}
+		wg.Wait()
+		if firstErr != nil {
+			evid.EngineError("C23", "%v", firstErr)
+		}
+		r.Set("reference_processes", refProcs)
 		f, err := os.CreateTemp(evid.Scratch(), "c23refs-*.json")
 		if err != nil {
 			evid.EngineError("C23", "%v", err)
@@ -780,7 +878,7 @@ func runC23() {
 		return
 	}
 
-	r.Rule(fmt.Sprintf("every history of 1..%d NewClient constructions in one process, each with 0..2 options (ordered, repetition allowed) from the %d exported Option constructors of config.go, with at most %v options in a history of 1/2/3 clients; option arguments are distinctive and depend on the client's position; reference = the same construction as the first action of a fresh process (%d reference processes); non-trivial (counted in distinct_nontrivial) = a history of exactly 2 clients with at least 1 option (the smallest shape in which one client can influence another; longer histories extend these and are counted in evaluations only), distinct by the ordered option names of both clients", maxClients, len(alpha), limit[1:], maxClients*len(tuples)))
+	r.Rule(fmt.Sprintf("every history of 1..%d NewClient constructions in one process, each with 0..2 options (ordered, repetition allowed) from the %d exported Option constructors of config.go, with at most %v options in a history of 1/2/3 clients; option arguments are distinctive and depend on the client's position; reference = the same construction in a fresh process (the default client and every one-option tuple: one new process each; two-option tuples: batched in processes that restore and re-verify the fresh default state after every construction; %d reference constructions); non-trivial (counted in distinct_nontrivial) = a history of exactly 2 clients with at least 1 option (the smallest shape in which one client can influence another; longer histories extend these and are counted in evaluations only), distinct by the ordered option names of both clients", maxClients, len(alpha), limit[1:], maxClients*len(tuples)))
 	r.Assume("RequestIDSeed (RandomRequestID draws from math/rand) is compared as zero / non-zero only", "option argument objects are created afresh for every application, so sharing introduced by the caller is excluded", "between histories the exported defaults uacp.DefaultClientACK/DefaultServerACK are restored; the fresh-default configuration is re-checked against the fresh-process reference after every history that produced a finding")
 	deaths := evid.Sharded(r, 0, func(s evid.ShardInfo, w *evid.Run) {
 		quiet()
